@@ -157,10 +157,10 @@ WEIGHTED = ("wrf", "euc")
 def call(fname, ta, tb, **kw):
     """-> ("ok", value) | ("refused", msg) | ("exc", text)"""
     try:
-        with time_limit(20):
+        with limit(20):
             return ("ok", FUNCS[fname](ta, tb, **kw))
     except Timeout:
-        return ("exc", "no result after 20 s")
+        return ("exc", ".hangs: no result after 20 s")
     except ValueError as e:
         if "Edge length attribute is 'None'" in str(e):
             return ("refused", str(e)[:80])
@@ -252,6 +252,10 @@ def pair_key(a, b):
 
 
 def _w_pair(item):
+    return retry_hangs(_w_pair0, item)
+
+
+def _w_pair0(item):
     fails, n = eval_pair(item)
     if len(item["a"]["leaves"]) == 2 and not item["a"]["rooted"]:
         # a two-leaf unrooted tree is a single edge drawn as two: triaged under its own name
@@ -295,8 +299,9 @@ def drawings(n, rooted, per_topology=3, unif=False):
     return out
 
 
-PATTERN_PAIRS = [("none", "none"), ("ones", "ones"), ("f1", "f1"), ("f1", "f2"), ("f2", "f1"), ("rootlen", "f1"),
-                 ("none", "f1"), ("f1", "none"), ("missing1", "f1"), ("f1", "missing1"), ("missing1", "missing1"), ("missing1", "f2")]
+# (both argument orders are evaluated for every item, so mirrored pattern pairs would add little)
+PATTERN_PAIRS = [("none", "none"), ("ones", "ones"), ("f1", "f1"), ("f1", "f2"), ("rootlen", "f1"),
+                 ("none", "f1"), ("missing1", "f1"), ("missing1", "missing1"), ("f2", "missing1")]
 
 
 def _pair_items(tier, seed):
@@ -367,6 +372,10 @@ def _unif_items(tier):
 
 # ----------------------------------------------------------------------------- triangle
 def _w_dist(item):
+    return retry_hangs(_w_dist0, item)
+
+
+def _w_dist0(item):
     a, b = item
     out = {}
     for fname in ("sd", "wrf", "euc"):
@@ -399,7 +408,7 @@ def eval_namespace(item):
         tb.encode_bipartitions()
     kw = {"is_bipartitions_updated": True} if updated and fname != "alias_sd" else {}
     try:
-        with time_limit(20):
+        with limit(20):
             got = FUNCS[fname](ta, tb, **kw)
     except dperror.TaxonNamespaceIdentityError:
         return []
@@ -409,6 +418,10 @@ def eval_namespace(item):
 
 
 def _w_ns(item):
+    return retry_hangs(_w_ns0, item)
+
+
+def _w_ns0(item):
     return (pair_key(item["a"], item["b"]) + " other-%s fn=%s updated=%d" % (ns_key(item["b"]["ns"]), item["fn"], item["updated"]),
             eval_namespace(item))
 
@@ -546,8 +559,8 @@ def _history_items(tier, seed):
                     b = mkspec(sb, lb, rooted, "f2", nsd)
                     for edit in EDITS:
                         tg = edit_targets(a, edit)
-                        if len(tg) > 6:
-                            tg = rng.sample(tg, 6) if tier == "quick" else tg
+                        if len(tg) > 4:
+                            tg = rng.sample(tg, 4) if tier == "quick" else tg
                         for target in tg:
                             for prime in ("encode", "call", "maps"):
                                 for fname in ("sd", "fpfn", "missing", "wrf", "euc"):
@@ -563,6 +576,10 @@ def hist_key(item):
 
 
 def _w_hist(item):
+    return retry_hangs(_w_hist0, item)
+
+
+def _w_hist0(item):
     fails, ev = eval_history(item)
     return (hist_key(item), len(item["a"]["leaves"]), fails, ev)
 
@@ -574,7 +591,7 @@ def t2(ctx):
 
     sc = "pairs@drawings x representatives"
     ctx.scope(sc, rule="n <= 4 leaves: (up to 3 drawings of every topology, different seed positions / child orders first) x (one "
-                       "representative of every topology) x {rooted, unrooted} x 12 length-pattern pairs (none, ones, two dyadic "
+                       "representative of every topology) x {rooted, unrooted} x 9 length-pattern pairs (none, ones, two dyadic "
                        "functions of the split, one missing, seed length); 5%s leaves: seeded sample of pairs; n = 3, 4 again over 3 "
                        "namespaces with extra / removed / reordered taxa.  One evaluation = one real call (fresh trees) compared with "
                        "the split-set oracle; non-trivial = >= 3 leaves" % ("" if quick else ", 6"), exhaustive=False)
@@ -582,6 +599,35 @@ def t2(ctx):
     for item, (key, n, fails, ncalls) in zip(items, pmap(_w_pair, items, chunksize=32)):
         for i in range(ncalls):
             ctx.case(sc, (key, i), nontrivial=n >= 3, sample=key)
+        for mon, detail in fails:
+            rep.fail(mon, {"key": key, "kind": "pair", "item": item}, detail=detail)
+
+    sc = "random@8-10 leaves"
+    ctx.scope(sc, rule="%d seeded random pairs of trees (8-10 leaves, polytomies p=0.3) on one leaf set over a 12-taxon namespace, the "
+                       "second tree either independent or the first with two leaves exchanged, random rooting and length patterns; same "
+                       "clauses as pairs; all non-trivial" % (100 if quick else 1500), exhaustive=False)
+    rng = rng_for(ctx, 404)
+    items = []
+    for _ in range(100 if quick else 1500):
+        n = rng.randint(8, 10)
+        labels = sorted(rng.sample(LABELS[:12], n))
+        nsd = {"total": 12, "removed": [], "order": "asis"}
+        la = list(labels)
+        rng.shuffle(la)
+        sa = random_shape(n, rng, 0.3)
+        rooted = rng.random() < 0.5
+        if rng.random() < 0.5:
+            sb, lb = random_shape(n, rng, 0.3), list(labels)
+            rng.shuffle(lb)
+        else:
+            sb, lb = sa, list(la)
+            i, j = rng.sample(range(n), 2)
+            lb[i], lb[j] = lb[j], lb[i]
+        pa, pb = rng.choice([("f1", "f2"), ("f1", "f1"), ("ones", "f2"), ("missing1", "f1"), ("none", "f1")])
+        items.append({"a": mkspec(sa, la, rooted, pa, nsd), "b": mkspec(sb, lb, rooted, pb, nsd)})
+    for item, (key, n, fails, ncalls) in zip(items, pmap(_w_pair, items, chunksize=4)):
+        for i in range(ncalls):
+            ctx.case(sc, (key, i), sample=key)
         for mon, detail in fails:
             rep.fail(mon, {"key": key, "kind": "pair", "item": item}, detail=detail)
 
@@ -658,7 +704,7 @@ def t2(ctx):
                        "encoding, a first call, encoding + edge maps} x one edit of tree 1 from {%s} at %s target x function in "
                        "{sd, fpfn, missing, wrf, euc} called with default arguments; oracle on the raw structure after the edit; "
                        "histories whose edit raises or changes the leaf set are skipped and not counted; non-trivial = >= 4 leaves"
-                       % (4 if quick else 5, ", ".join(EDITS), "<= 6 seeded targets" if quick else "every"), exhaustive=False)
+                       % (4 if quick else 5, ", ".join(EDITS), "<= 4 seeded targets" if quick else "every"), exhaustive=False)
     items = _history_items(ctx.tier, ctx.seed)
     skipped = 0
     for item, (key, n, fails, ev) in zip(items, pmap(_w_hist, items, chunksize=64)):
